@@ -52,6 +52,12 @@ def check_own(prop: str, res: Result, repo: Repo):
                 continue  # the indicator's / Hexital's own registry of helper objects, not candle readings
             if base.endswith(".indicators") or base.endswith(".sub_indicators"):
                 ok = (fi.cls is not None and fi.cls.name == "Indicator" and fi.name == "_set_reading") or (fi.name == "_calculate_reading")
+                if not ok and fi.qualname == "Managed.set_reading":
+                    # the store of _set_reading written out in its only other caller: accepted when the evaluated contract of
+                    # Managed.set_reading holds (exactly one reading, under the managed series' own name, on the target candle)
+                    from .helpersem import verdict
+
+                    ok = verdict(repo, "Managed.set_reading")[0] == "ok" and ast.unparse(t.slice) == "self.name"
                 if ok:
                     res.ok(rule, {"site": f"{fi.where} {norm_construct(st)}", "owner": fi.qualname})
                 else:
@@ -196,10 +202,53 @@ def check_hexital_purge(prop: str, res: Result, repo: Repo):
         res.fail(rule, finding(prop, rule, rm, rm.node, "remove_indicator must purge the indicator's readings and then drop it", construct="remove_indicator: " + " -> ".join(seq)))
 
 
+def _purge_names_by_evaluation(repo: Repo):
+    """Indicator.purge evaluated (convsem) on a composite with helpers three levels deep in both registries: the names handed to the
+    manager.  -> (set of names | None when undecided, expected set)"""
+    from . import convsem as cs
+
+    def node(name, subs=(), managed=()):
+        o = cs.ObjV(f"indicator {name}", {"name": name, "sub_indicators": {}, "managed_indicators": {}}, "Indicator")
+        for c in subs:
+            o.attrs["sub_indicators"][c.attrs["name"]] = c
+        for i, c in enumerate(managed):
+            o.attrs["managed_indicators"][f"label{i}"] = c  # filed under a local label, not under the series' name
+        return o
+
+    leaf1, leaf2, leaf3 = node("T_first_second"), node("T_data_smooth"), node("T_aux")
+    mid1, mid2 = node("T_first", subs=[leaf1]), node("T_data", subs=[leaf2], managed=[leaf3])
+    top = node("T", subs=[mid1], managed=[mid2])
+    expected = {"T", "T_first", "T_first_second", "T_data", "T_data_smooth", "T_aux"}
+    got = []
+    mgr = cs.ObjV("manager", {}, "CandleManager")
+    mgr.attrs["purge"] = lambda a, k: got.append(a[0] if a else next(iter(k.values()), None))
+    for o in (top, mid1, mid2, leaf1, leaf2, leaf3):
+        o.attrs["_candles"] = mgr
+        o.attrs["candle_manager"] = mgr
+    it = cs.Interp(repo, "hexital.core.indicator", "Indicator")
+    try:
+        it.call_function(it.method("purge"), [], {}, bound_first=top)
+    except (cs.Undecided, cs.Raised, RecursionError):
+        return None, expected
+    if len(got) != 1:
+        return None, expected
+    try:
+        return set(got[0]), expected
+    except TypeError:
+        return None, expected
+
+
 def purge_depth(repo: Repo):
     """abstract evaluation of Indicator.purge's name set: returns ('inf'|int, evidence text, function)"""
     pg = repo.method("hexital.core.indicator", "Indicator", "purge")
     ind = repo.indicator_base()
+    _got, _want = _purge_names_by_evaluation(repo)
+    if _got is not None:
+        fn_ = ind.methods.get("_purge_names") or pg
+        if _got == _want:
+            return "inf", "evaluated on a composite three levels deep (sub and managed helpers, managed ones filed under local labels): the manager is handed exactly the names of all six series", fn_
+        missing, extra = sorted(_want - _got), sorted(_got - _want)
+        return 0, f"evaluated on a composite three levels deep: the manager is handed {sorted(_got)}; missing {missing}, unexpected {extra}", fn_
     # the expression handed to the manager
     mcalls = [c for c in calls_in(pg.node) if call_target(c).endswith("_candles.purge") or call_target(c).endswith("candle_manager.purge")]
     if len(mcalls) != 1 or not mcalls[0].args:
